@@ -18,7 +18,7 @@ ANCHORS = ["hashtable.py::Counter.count", "hashtable.py::Counter.__init__", "rag
 FLOOR_TAGS = ["init:default", "init:scalar0", "init:scalar", "init:array", "batch:empty", "batch:nokey", "batch:onlykeys", "batch:mixed", "batch:heavy", "batch:collide",
               "batch:wide", "batch:pylist", "mod:1", "mod:None", "mod:explicit", "state:first-hit-on-scalar0", "state:first-hit-on-scalar", "state:array", "no-hit-call"]
 FLOOR_MONITORS = ["c12:batch", "c12:twin-read-at-end", "c12:twin-one-batch", "c12:twin-resplit", "c12:twin-modulus", "probe:buckets"]
-N_RANDOM = {"quick": 2500, "thorough": 100000}
+N_RANDOM = {"quick": 7500, "thorough": 100000}
 
 
 def setup(lib):
